@@ -1,10 +1,10 @@
 #!/usr/bin/env python3
-"""Copies the regenerated list of index sites into lean/Props/C09Audit.lean (run after reviewing the sites that changed)."""
+"""Copies the regenerated table of index sites into lean/Props/C09Audit.lean (run after reviewing the sites that changed)."""
 src=open('/verif/lean/Extracted/Hazards.lean').read()
 i=src.index("def indexSites")
 body=src[i:src.index("]\n",i)+2].replace("def indexSites","def auditedIndexSites")
 p='/verif/lean/Props/C09Audit.lean'
 s=open(p).read()
-j=s.index("def auditedIndexSites")
+j=s.index("/-- how many index")
 k=s.index("end Props.C09Audit")
 open(p,'w').write(s[:j]+body+"\n"+s[k:])
